@@ -93,6 +93,10 @@ func Trim(input string, maxPrintableLength int) string {
 		return input
 	}
 
+	if maxPrintableLength < 0 {
+		maxPrintableLength = 0
+	}
+
 	// Find all escape sequences in the input
 	escapeIndices := re.FindAllStringIndex(input, -1)
 
